@@ -1,4 +1,5 @@
 """C07 - the lexer agrees with the PICO-8/Lua lexical grammar on kinds, extents, values, positions."""
+import re
 import itertools
 import random
 
@@ -190,10 +191,42 @@ def regex_rows(rng):
     return rows
 
 
+_SECTION_LINE = re.compile(br'(?m)^__\w+__$')
+
+
+def p8file_chunks(src):
+    """The chunks the .p8 reader hands to the lexer for a cart file whose __lua__ section holds src (the statement's
+    "per-line chunks (.p8 path)", taken from the reader itself rather than from our own line splitter).
+    -> list of chunks | {'err': name} | None when src cannot be the body of a __lua__ section (a line that is a
+    section header, an #include line)"""
+    if _SECTION_LINE.search(src) or b'#include' in src or src.startswith(b'__'):
+        return None
+    import io
+    try:
+        from pico8.lua import lua
+        from pico8.game.formatter import p8
+        text = lua.p8scii_to_unicode(src)
+        data = p8.HEADER_TITLE_STR + b'version 8\n__lua__\n' + text.encode('utf-8')
+        d = p8._get_raw_data_from_p8_file(io.BytesIO(data))
+        return list(d.section_lines.get('lua', []))
+    except Exception as e:  # noqa
+        return {'err': 'p8-reader-' + lib.exc_name(e)}
+
+
+def _tok_view(r):
+    if 'err' in r:
+        return ('err', r['err'])
+    return [(t['cls'], t['data'], t['line'], t['col'], t.get('sval'), t.get('value')) for t in r['toks']]
+
+
 def run_impl_src(src, random_split_rng=None):
     one = LC.lex_impl([src])
     lines = LC.lex_impl(luagen.split_lines(src))
     row = {'src': src, 'one': one, 'lines': lines}
+    chunks = p8file_chunks(src)
+    if chunks is not None:
+        # the .p8 path as a cart file takes it: the reader's own cutting into lines and its text decoding
+        row['p8file'] = chunks if isinstance(chunks, dict) else LC.lex_impl(chunks)
     if random_split_rng is not None and len(src) > 1:
         cuts = sorted(set(random_split_rng.randrange(1, len(src)) for _ in range(random_split_rng.randrange(1, 5))))
         chunks = [src[a:b] for a, b in zip([0] + cuts, cuts + [len(src)])]
@@ -261,6 +294,7 @@ def _classify(src, ans, impl):
 
 
 WHAT = {
+    'C07/p8-file-path': 'the tokens of a .p8 cart file whose __lua__ section holds this source differ from the tokens of the same source given line by line (the .p8 reader cuts or decodes the section differently)',
     'C07/kind/keyword-before-glyph-byte': 'a keyword directly followed by a P8SCII byte >= 0x80 (e.g. end\\x80) is lexed as keyword + name instead of one identifier (bytes-mode \\b)',
     'C07/number-value/uppercase-prefix': 'TokNumber.value raises ValueError for numerals with an upper-case prefix (0XA, 0B11)',
     'C07/number-value/empty-integer-part': 'TokNumber.value raises ValueError for 0x.8 / 0b.1 (empty integer part)',
@@ -518,6 +552,10 @@ def _eval_many_rows(mon, rows):
             if x != 'true':
                 sig = 'C07/chunking' if lab == 'chunking' else _classify(r['src'], x, r[lab])
                 break
+        if sig is None and 'p8file' in r and _tok_view(r['p8file']) != _tok_view(r['lines']):
+            # the per-line route has just been judged against the reference grammar; a cart file with this code
+            # gives another token list
+            sig = 'C07/p8-file-path'
         out.append((sig, r))
     return out
 
